@@ -413,6 +413,7 @@ HDR = re.compile(r"^(fn|const|static) (.*)$")
 
 def parse_mir(text):
     funcs = {}
+    text = text.replace("'\"'", "'\\x22'")        # the char literal '"' would unbalance string scanning
     lines = text.split("\n")
     i = 0
     n = len(lines)
